@@ -221,9 +221,30 @@ def _partial_cond(prov, key) -> tuple:
     return ((("partial", sl), True),) if sl is not None else ()
 
 
+def _contains_stmt(paths_or_path, ev: Ev) -> bool:
+    for e in paths_or_path.events:
+        if e.line == ev.line and e.kind == ev.kind:
+            return True
+        if e.body and any(_contains_stmt(q, ev) for q in e.body):
+            return True
+    return False
+
+
+def bypass_cond(s: Summary, ev: Ev) -> tuple:
+    """A statement that lies on both arms of every test is still conditional when some complete path of the
+    function (an early ``return``) never reaches it: (('bypass', exit lines), True)."""
+    exits = set()
+    for p in s.paths:
+        if p.out is not None and p.out[0] == "raise":
+            continue
+        if not _contains_stmt(p, ev):
+            exits.add(p.out[2] if p.out is not None and len(p.out) > 2 else 0)
+    return ((("bypass", tuple(sorted(exits))), True),) if exits else ()
+
+
 def _conds(ctx: Ctx, s: Summary | None = None, ev: Ev | None = None) -> tuple:
     if s is not None and ev is not None:
-        return s.must_guards(ev)
+        return s.must_guards(ev) + bypass_cond(s, ev)
     out = []
     for g in ctx.guards:
         if g.kind == "guard":
@@ -1545,6 +1566,124 @@ def constructor_owns_records(cx: Cx, ob: Ob) -> None:
             ob.undecide(f"self.records is assigned `{show(v)[:60]}`: not recognisably a fresh list")
 
 
+def _projection(cx: Cx, key):
+    """What a key function selects: 'id', ('idx', i), ('idxs', (i, j, ..)) or None (unknown)."""
+    if key is None or is_const(key, None):
+        return "id"
+
+    def body_proj(body, var):
+        if body == var:
+            return "id"
+        if op(body) == "item" and body[1] == var and is_const(body[2]) and isinstance(body[2][1], int):
+            return ("idx", body[2][1])
+        if op(body) == "tuple":
+            sub = [body_proj(x, var) for x in body[1]]
+            if all(isinstance(x, tuple) and x[0] == "idx" for x in sub):
+                return ("idxs", tuple(x[1] for x in sub))
+        return None
+
+    if op(key) == "lambda" and len(key[1]) == 1:
+        return body_proj(key[2], ("lv", key[1][0]))
+    if op(key) == "call" and op(key[1]) == "ext" and key[1][1] == "operator.itemgetter" and key[2] and all(is_const(a) and isinstance(a[1], int) for a in key[2]):
+        return ("idx", key[2][0][1]) if len(key[2]) == 1 else ("idxs", tuple(a[1] for a in key[2]))
+    if op(key) == "func" and key[1] in cx.model.functions:
+        f = cx.model.functions[key[1]]
+        ps = [p for p in f.params]
+        rets = cx.summary(f).returns()
+        if len(ps) == 1 and len(rets) == 1:
+            return body_proj(rets[0][0], ("param", ps[0].name))
+    return None
+
+
+def _first_component(proj):
+    if proj == "id":
+        return 0  # tuples compare lexicographically: sorted by the whole item groups by component 0
+    if isinstance(proj, tuple) and proj[0] == "idx":
+        return proj[1]
+    if isinstance(proj, tuple) and proj[0] == "idxs" and proj[1]:
+        return proj[1][0]
+    return None
+
+
+def groupby_sortedness(cx: Cx, ob: Ob, files: set | None = None, strict_only: bool = False) -> None:
+    """itertools.groupby only merges ADJACENT equal keys: its input must be sorted by the grouping key.
+
+    Without ``files``: the loaders of the converter (C13); with ``files``: every function defined there.
+    ``strict_only`` reports definite mismatches only (used by the package-wide lint obligation)."""
+    if files is None:
+        names = [f"{API}.upgrade_prefix_map"] + [m.qualname for m in cx.model.cls(CONV, ob.id).methods.values() if m.name.startswith("from_")]
+    else:
+        names = [f.qualname for f in cx.model.functions.values() if f.module.relpath in files]
+    for q in names:
+        fn = cx.model.functions.get(q)
+        if fn is None:
+            continue
+        import ast as _ast
+
+        if not any(isinstance(n, _ast.Attribute) and n.attr == "groupby" or isinstance(n, _ast.Name) and n.id == "groupby" for n in _ast.walk(fn.node)):
+            continue
+        s = cx.summary(fn, ob.id) if not strict_only else cx.summary(fn)
+        seen = set()
+        for t, ev, ctx in s.all_terms():
+            for c in subterms(t):
+                if not (op(c) == "call" and op(c[1]) == "ext" and c[1][1] == "itertools.groupby" and c[2]):
+                    continue
+                if (ev.line, c) in seen:
+                    continue
+                seen.add((ev.line, c))
+                key = dict(c[3]).get("key") or (c[2][1] if len(c[2]) > 1 else None)
+                src = c[2][0]
+                if op(src) == "new" and len(src) > 4:
+                    src = src[4]
+                if not strict_only:
+                    ob.site(f"{where(fn, ev.line)} {fn.qualname}", f"groupby(key={show(key)[:40] if key else None})")
+                if not (op(src) == "call" and src[1] == ("builtin", "sorted")):
+                    plain = op(src) in ("param", "comp", "list", "tuple") or (op(src) == "call" and op(src[1]) == "attr" and src[1][2] in ("items", "values", "keys"))
+                    if strict_only and plain and not any(e.kind == "expr" and op(e.a) == "call" and callee_name(e.a) == "sort" for e, _ in s.walk()):
+                        ob.violate(
+                            fn.qualname,
+                            where(fn, ev.line),
+                            f"itertools.groupby runs over `{show(src)[:50]}`, which is not sorted by the grouping key: equal keys that are not adjacent form several groups",
+                            witness="values a, b, a: groupby yields a group for the first a, one for b and another one for the second a",
+                            detail="groupby-unsorted",
+                        )
+                    elif not strict_only:
+                        ob.undecide(f"groupby input `{show(src)[:50]}` is not a sorted(...) call: adjacency of equal keys not established")
+                    continue
+                skey = dict(src[3]).get("key")
+                if skey == key:
+                    continue
+                gp, sp = _projection(cx, key), _projection(cx, skey)
+                if gp is None and sp == "id" and op(key) in ("attr", "func", "builtin", "bound", "ext"):
+                    # grouped by f(value) but sorted by the raw values: f is not monotone in general
+                    ob.violate(
+                        fn.qualname,
+                        where(fn, ev.line),
+                        f"itertools.groupby groups by `{show(key)[:40]}` but its input is sorted by the raw values: values with equal keys need not be adjacent and then form several groups",
+                        witness="names 'a', 'b', 'x' with x a synonym of a: sorted order a, b, x puts b between the two names of one record",
+                        detail="groupby-unsorted",
+                    )
+                    continue
+                if gp is None or sp is None:
+                    if not strict_only:
+                        ob.undecide(f"groupby key `{show(key)[:40] if key else None}` / sort key `{show(skey)[:40] if skey else None}` not recognised as projections")
+                    continue
+                if gp == "id":
+                    ok = sp == "id"
+                elif gp[0] == "idx":
+                    ok = _first_component(sp) == gp[1]
+                else:
+                    ok = sp == gp
+                if not ok:
+                    ob.violate(
+                        fn.qualname,
+                        where(fn, ev.line),
+                        f"itertools.groupby groups by {gp} but its input is sorted by {sp}: equal keys that are not adjacent form several groups, i.e. several records claiming the same URI prefix",
+                        witness="{'a': 'U', 'b': 'V', 'c': 'U'} sorted by item is (a,U),(b,V),(c,U): two groups for U",
+                        detail="groupby-unsorted",
+                    )
+
+
 def package_lints(cx: Cx, ob: Ob, files: set) -> None:
     """ONE-SHOT iterator reuse and MUTABLE-DEFAULT leaks in the files a property is anchored in."""
     from .analyses.lints import scan
@@ -1553,6 +1692,7 @@ def package_lints(cx: Cx, ob: Ob, files: set) -> None:
     ob.site("src/curies/{" + ",".join(sorted(files)) + "}", f"{n} functions scanned (def-use lints)")
     for l in lints:
         ob.violate(l.fn.qualname, where(l.fn, l.line), l.message, detail=f"{l.rule}:{l.name}")
+    groupby_sortedness(cx, ob, files, strict_only=True)
 
 
 def no_fields_set_dependence(cx: Cx, ob: Ob) -> None:
